@@ -509,6 +509,8 @@ class A:
 
     # ---- element-wise
     def _ew(self, o, f, dt=None):
+        if hasattr(o, "arr") and hasattr(o, "index") and not isinstance(o, A):
+            return NotImplemented          # Series fake: let its reflected operator handle the pair
         if isinstance(o, A):
             if o.shape != self.shape:
                 if o.size == 1:
@@ -598,9 +600,10 @@ def _floordiv(a, b):
             raise Unsupported("float floor division")
         if is_sym(b):
             raise Unsupported("floor division by a symbolic divisor")
+        from .values import int_floordiv
         if b > 0:
-            return a / b          # z3 integer div: floor for positive divisor
-        return (-a) / (-b)
+            return int_floordiv(a, b)          # z3 integer div: floor for positive divisor
+        return int_floordiv(-a, -b)
     return a // b
 
 
